@@ -15,6 +15,7 @@ from typing import Union
 
 from liquid import Markup
 from liquid.builtin.expressions import Nil
+from liquid.builtin.expressions.logical import _eq as liquid_eq
 from liquid.builtin.expressions.logical import is_truthy
 from liquid.exceptions import FilterArgumentError
 from liquid.exceptions import FilterError
@@ -157,7 +158,7 @@ def sort_natural(sequence: ArrayT, key: object = None) -> list[object]:
 def where(sequence: ArrayT, attr: object, value: object = None) -> list[object]:
     """Return a list of items from _sequence_ where _attr_ equals _value_."""
     if value is not None and not is_undefined(value):
-        return [itm for itm in sequence if _getitem(itm, attr) == value]
+        return [itm for itm in sequence if liquid_eq(_getitem(itm, attr), value)]
 
     return [itm for itm in sequence if is_truthy(_getitem(itm, attr))]
 
@@ -169,7 +170,7 @@ def reject(sequence: ArrayT, attr: object, value: object = None) -> list[object]
         return []
 
     if value is not None and not is_undefined(value):
-        return [itm for itm in sequence if _getitem(itm, attr) != value]
+        return [itm for itm in sequence if not liquid_eq(_getitem(itm, attr), value)]
 
     return [itm for itm in sequence if not is_truthy(_getitem(itm, attr))]
 
@@ -178,7 +179,7 @@ def reject(sequence: ArrayT, attr: object, value: object = None) -> list[object]
 def find(sequence: ArrayT, attr: object, value: object = None) -> object:
     """Return the first item from _sequence_ where _attr_ is equal to _value_."""
     if value is not None and not is_undefined(value):
-        return next((itm for itm in sequence if _getitem(itm, attr) == value), None)
+        return next((itm for itm in sequence if liquid_eq(_getitem(itm, attr), value)), None)
 
     return next(
         (itm for itm in sequence if is_truthy(_getitem(itm, attr))), None
@@ -192,7 +193,7 @@ def find_index(
     """Return the index of first item from _sequence_ where _attr_ equals _value_."""
     if value is not None and not is_undefined(value):
         return next(
-            (i for i, itm in enumerate(sequence) if _getitem(itm, attr) == value), None
+            (i for i, itm in enumerate(sequence) if liquid_eq(_getitem(itm, attr), value)), None
         )
 
     return next(
@@ -209,7 +210,7 @@ def find_index(
 def has(sequence: ArrayT, attr: object, value: object = None) -> bool:
     """Return true if any items in _sequence_ have _attr_ equal to _value_."""
     if value is not None and not is_undefined(value):
-        return any((itm for itm in sequence if _getitem(itm, attr) == value))
+        return any((itm for itm in sequence if liquid_eq(_getitem(itm, attr), value)))
 
     return any((itm for itm in sequence if is_truthy(_getitem(itm, attr))))
 
@@ -234,13 +235,17 @@ def uniq(sequence: ArrayT, key: object = None) -> list[object]:
                     f"can't read property '{key}' of {obj}", token=None
                 ) from err
 
-            if item not in keys:
+            if not any(liquid_eq(item, key_) for key_ in keys):
                 keys.append(item)
                 result.append(obj)
 
         return result
 
-    return [obj for i, obj in enumerate(sequence) if sequence.index(obj) == i]
+    unique: list[object] = []
+    for obj in sequence:
+        if not any(liquid_eq(obj, seen) for seen in unique):
+            unique.append(obj)
+    return unique
 
 
 @sequence_filter
